@@ -167,24 +167,24 @@ static int roundtripMain(const std::vector<std::string>&, std::istream& in, std:
         try { t2 = SyntaxTree::parseText(SourceText(text2), TextPreprocessingState::Preprocessed, TextCompleteness::Fragment, opts, "b.c", cat); }
         catch (...) { out << "FAIL reparse=exception\n"; continue; }
         TokSeq s1 = tokensOf(t1.get()), s2 = tokensOf(t2.get());
-        // "the source's token sequence": for the tokens whose spelling is kept in a lexeme table (identifiers, constants, string literals) the
-        // SOURCE BYTES of the token's extent are the spelling, not what the table answers (a table that hands out the lexeme of another,
-        // colliding spelling makes both sides of a lexeme-to-lexeme comparison wrong in the same way)
-        {
+        // "the source's token sequence, same spellings": the SOURCE BYTES of each token's extent are its spelling, on both sides - not what the
+        // lexeme table answers (a table that hands out the lexeme of another, colliding spelling makes both sides of a lexeme-to-lexeme
+        // comparison wrong in the same way) and not the canonical name of the token kind (`typeof' / `__typeof__', `<:' / `[' are one kind each)
+        auto sourceSpell = [](SyntaxTree* t, const std::string& txt, TokSeq& seq) {
             size_t j = 0;
-            for (unsigned i = 1; i < t1->tokenCount() && j < s1.size(); ++i) {
-                const SyntaxToken& tk = t1->tokenAt(i);
+            for (unsigned i = 1; i < t->tokenCount() && j < seq.size(); ++i) {
+                const SyntaxToken& tk = t->tokenAt(i);
                 if (tk.kind() == SyntaxKind::EndOfFile) continue;
-                bool lexeme = tk.kind() == SyntaxKind::IdentifierToken
-                        || (tk.kind() >= SyntaxKind::IntegerConstantToken && tk.kind() <= SyntaxKind::StringLiteral_U_Token);
-                if (lexeme && tk.byteOffset_ + tk.byteSize_ <= text.size()) {
-                    std::string src = text.substr(tk.byteOffset_, tk.byteSize_);
+                if (tk.byteSize_ && tk.byteOffset_ + tk.byteSize_ <= txt.size()) {
+                    std::string src = txt.substr(tk.byteOffset_, tk.byteSize_);
                     if (src.find('\\') == std::string::npos && src.find('?') == std::string::npos)       // no splice / trigraph inside the token
-                        s1[j].second = src;
+                        seq[j].second = src;
                 }
                 ++j;
             }
-        }
+        };
+        sourceSpell(t1.get(), text, s1);
+        sourceSpell(t2.get(), text2, s2);
         std::string tokv = "ok";
         for (size_t i = 0; i < std::max(s1.size(), s2.size()); ++i) {
             if (i >= s1.size() || i >= s2.size() || s1[i] != s2[i]) {
